@@ -1052,11 +1052,11 @@ class OdeSystem(object):
 
                             if true_positive:
                                 ev_state = StateTuple(t=root, y=self.__sol(root), event=ev)
-                                if not self.__events or last_occurrence[ev_idx] == -1:
-                                    last_occurrence[ev_idx] = len(self.__events)
+                                if not self.__events or last_occurrence[active_events[ev_idx]] == -1:
+                                    last_occurrence[active_events[ev_idx]] = len(self.__events)
                                     self.__events.append(ev_state)
-                                elif D.ar_numpy.abs(ev_state.t - self.__events[last_occurrence[ev_idx]].t) > D.epsilon(self.__y[0].dtype) ** 0.7:
-                                    last_occurrence[ev_idx] = len(self.__events)
+                                elif D.ar_numpy.abs(ev_state.t - self.__events[last_occurrence[active_events[ev_idx]]].t) > D.epsilon(self.__y[0].dtype) ** 0.7:
+                                    last_occurrence[active_events[ev_idx]] = len(self.__events)
                                     self.__events.append(ev_state)
 
                         if end_int:
